@@ -103,7 +103,7 @@ impl Expression {
                     },
                     op,
                     Const(bitvec),
-                ) if (bitvec.is_zero() || bitvec.is_one())
+                ) if bitvec.is_zero()
                     && matches!(op, IntEqual | IntNotEqual) =>
                 {
                     // `0 == x - y` is equivalent to `x == y`
